@@ -46,6 +46,11 @@ def cases(tier, rng):
             if k == "esym":
                 d["hi"] = ["none", "pec", "pml"][int(rng.integers(3))]
             ax.append(d)
+        # the first scenes always combine two / three electric symmetry planes (halo cells behind several planes)
+        forced = {0: (0, 1), 1: (1, 2), 2: (0, 2), 3: (0, 1, 2)}.get(i)
+        if forced:
+            for a in forced:
+                ax[a] = {"k": "esym", "hi": ["none", "pec", "pml"][int(rng.integers(3))]}
         out.append({"axes": ax, "shape": [int(rng.integers(4, 8)) for _ in range(3)], "grid": ["uniform", "rect"][i % 2], "seed": int(rng.integers(1 << 30))})
     return out
 
